@@ -180,7 +180,24 @@ ReduceOp ==
        Case("reduce", [reducer |-> a.r, axis |-> ax, mask |-> a.mask, keepdims |-> a.kd],
             VReduce(V, T, a.r, ax, a.mask, a.kd))
 
-Operate == ReduceOp \/ Validity \/ ToListOp \/ SliceOp \/ NumOp \/ LocalIndexOp \/ FlattenOp \/ PadOp \/ CombOp
+\* C08: concatenation along axis 0 keeps every element (aux first, then cur); merging identical
+\* types gives that type
+ConcatOp ==
+  /\ Building /\ "concat" \in OpSet /\ HasAux /\ Valid(cur) /\ Valid(aux)
+  /\ last' = [act |-> "concat", args |-> [axis |-> 0], from |-> cur, aux |-> aux,
+              fromty |-> TypeStr(TypeOf(cur)), auxty |-> TypeStr(TypeOf(aux)), len |-> LLen(cur),
+              exp |-> [ok |-> 1, v |-> VList(ToListS(aux) \o ToListS(cur)),
+                       sametype |-> IF TypeOf(aux) = TypeOf(cur) THEN 1 ELSE 0]]
+  /\ cur' = Sink /\ aux' = NoLayout /\ phase' = "done"
+
+\* C08/C09: re-encodings that must not change the value: simplify, option-encoding conversions, casts
+SameValueOp ==
+  /\ OpReady("samevalue")
+  /\ \E o \in {"simplify", "astype_float64", "astype_int32", "project_bytemask", "toListOffsetArray64",
+               "toIndexedOptionArray64", "toByteMaskedArray", "deep_copy"} :
+       Case("samevalue", [o |-> o], Ok(V))
+
+Operate == ConcatOp \/ SameValueOp \/ ReduceOp \/ Validity \/ ToListOp \/ SliceOp \/ NumOp \/ LocalIndexOp \/ FlattenOp \/ PadOp \/ CombOp
 
 Next == Build \/ Operate
 Spec == Init /\ [][Next]_vars
